@@ -116,8 +116,13 @@ Post(mac, pre, s, own, a) ==
               ELSE "T"
 
 (* --- how a run is judged (used by Trace_Assert and by MC_VfsAssert) --- *)
+\* (written without building the set Admissible.sts: comparing whole states for set membership is costly in TLC)
 Performed(mac, st, own, a, post) ==
-  LET ad == Admissible(mac, st, own, a) IN ad.any \/ \E e \in ad.sts : StEq(e, post)
+  LET o == Act(mac, st, own, a) IN
+  \/ o.partial
+  \/ StEq(o.st, post)
+  \/ \E e \in o.alt : StEq(e, post)
+  \/ (mac = "copyfile" /\ a.pok /\ ~IsFile(st.fs, a.p) /\ StEq(st, post))
 ActMayPanic(mac, pre, post, own, a) == Post(mac, pre, post, own, a) \in {"F", "?"}
 ActMayPass(mac, pre, post, own, a)  == Post(mac, pre, post, own, a) \in {"T", "?"}
 =============================================================================
